@@ -246,7 +246,7 @@ func main() {
 		e.parsed = false
 	}
 	var sb strings.Builder
-		sb.WriteString("import Cell2v.Model.ApiMap\n/-! GENERATED by harness/c13/extract from apimapper/registry/api_registry.go — do not edit. -/\nnamespace Cell2v.Gen.C13\nopen Cell2v.ApiMap\n\n")
+	sb.WriteString("import Cell2v.Model.ApiMap\n/-! GENERATED by harness/c13/extract from apimapper/registry/api_registry.go — do not edit. -/\nnamespace Cell2v.Gen.C13\nopen Cell2v.ApiMap\n\n")
 	sb.WriteString("/-- the extractor understood every statement of `(*APIRegistry).AddCollection` (straight-line code, if/else, return, defer of an unlock) -/\n")
 	fmt.Fprintf(&sb, "def parsed : Bool := %v\n\n", e.parsed)
 	sb.WriteString("/-- every execution path through `AddCollection`: lock operations on the registry's RWMutex and reads/writes of its name->collection map, in execution order -/\n")
